@@ -354,7 +354,7 @@ fn build(kind: &str, ms: Vec<BV>) -> Option<Box<dyn VecOps>> {
 enum VSt {
     Dead,
     Vec(Box<dyn VecOps>),
-    /// iterator, current member index, begin_sum of the sliced buffer it iterates, capacities yielded before the current position
+    /// iterator, current member index, begin_sum of the sliced buffer it iterates, index of the first member it yields
     Iter(Box<dyn IterOps>, usize, usize, usize),
 }
 
@@ -426,6 +426,18 @@ impl VMachine {
                 Some((li, ci))
             })
             .collect()
+    }
+
+    /// some member is a view that ends before its root's initialised part does (e.g. `buf.slice(0..5)` of a
+    /// longer buffer): a raw `set_len` on it truncates the root
+    fn any_bounded_member(&self) -> bool {
+        self.members.iter().any(|m| {
+            catch(|| unsafe {
+                let s = (*m.obj).as_init();
+                m.ri.off(s.as_ptr()) + s.len() < (*m.obj).root_len()
+            })
+            .unwrap_or(false)
+        })
     }
 
     /// total capacity of the base container (None if a member's as_uninit panics)
@@ -571,6 +583,7 @@ impl VMachine {
                 let before = self.vobs();
                 let shape = self.base_shape();
                 let reused = self.members.iter().any(|m| unsafe { (*m.obj).reused_uninit() });
+                let bounded_before = self.any_bounded_member();
                 let VSt::Vec(v) = &mut self.st else { unreachable!() };
                 let Ok(tc) = before.tc else {
                     self.st = VSt::Dead;
@@ -620,13 +633,7 @@ impl VMachine {
                 }
                 if !bad.is_empty() {
                     let packed = !self.ever_unpacked;
-                    let bounded = self.members.iter().zip(&shape).enumerate().any(|(j, (m, s))| {
-                        let _ = m;
-                        match (s, before.u.as_ref().ok().and_then(|u| u.iter().find(|x| x.0 == j))) {
-                            (Some(_), Some((_, off, l))) => before.roots.lens[j] > off + l,
-                            _ => false,
-                        }
-                    });
+                    let bounded = bounded_before;
                     let sig = if reused {
                         "F6:uninit-second-fill"
                     } else if !packed {
@@ -699,7 +706,7 @@ impl VMachine {
                     }
                     Ok(Ok(it)) => {
                         ex.tag("viter");
-                        self.st = VSt::Iter(it, n - count, bsum, 0);
+                        self.st = VSt::Iter(it, n - count, bsum, n - count);
                         self.iline(ex, line)
                     }
                 }
@@ -722,9 +729,13 @@ impl VMachine {
                 let before = self.roots();
                 let shape = self.base_shape();
                 let ever_unpacked = self.ever_unpacked;
+                let reused = self.members.iter().any(|m| unsafe { (*m.obj).reused_uninit() });
+                let bounded_before = self.any_bounded_member();
                 let base_cap = self.base_cap();
-                let VSt::Iter(it, idx, bsum, earlier) = &mut self.st else { unreachable!() };
+                let VSt::Iter(it, idx, bsum, first) = &mut self.st else { unreachable!() };
                 let idx = *idx;
+                // current capacities of the members the iterator has passed
+                let earlier: usize = shape[*first..idx].iter().map(|s| s.map(|x| x.1).unwrap_or(0)).sum();
                 let Ok((j, off, c)) = bu else {
                     self.st = VSt::Dead;
                     return "panic".into();
@@ -732,7 +743,7 @@ impl VMachine {
                 if k > c {
                     return "contract".into();
                 }
-                if base_cap.map(|bc| *bsum + *earlier + k > bc).unwrap_or(true) {
+                if base_cap.map(|bc| *bsum + earlier + k > bc).unwrap_or(true) {
                     return "oob".into();
                 }
                 if bi.is_err() {
@@ -770,7 +781,11 @@ impl VMachine {
                     // recorded through this iterator, or the position is filled a second time
                     let earlier_cap: usize = shape[..idx].iter().map(|s| s.map(|x| x.1).unwrap_or(1)).sum();
                     let refilled = matches!((bi, bu), (Ok((_, oi, _)), Ok((_, ou, _))) if oi != ou);
-                    let sig = if earlier_cap > 0 || refilled {
+                    let sig = if reused {
+                        "F6:uninit-second-fill"
+                    } else if bounded_before {
+                        "C10-V2:bounded-member-truncated"
+                    } else if earlier_cap > 0 || refilled {
                         "C10-V1:viter-accounting"
                     } else if ever_unpacked {
                         "C10-V3:unpacked-members"
@@ -785,7 +800,9 @@ impl VMachine {
             ["isetlen", n] | ["iadvto", n] => {
                 let Ok(n) = n.parse::<usize>() else { return "bad-op".into() };
                 let base_cap = self.base_cap();
-                let VSt::Iter(it, _, bsum, earlier) = &mut self.st else { unreachable!() };
+                let shape = self.base_shape();
+                let VSt::Iter(it, idx, bsum, first) = &mut self.st else { unreachable!() };
+                let earlier: usize = shape[*first..*idx].iter().map(|s| s.map(|x| x.1).unwrap_or(0)).sum();
                 let Ok((_, c)) = it.uninit() else {
                     self.st = VSt::Dead;
                     return "panic".into();
@@ -793,7 +810,7 @@ impl VMachine {
                 if n > c {
                     return "contract".into();
                 }
-                if base_cap.map(|bc| *bsum + *earlier + n > bc).unwrap_or(true) {
+                if base_cap.map(|bc| *bsum + earlier + n > bc).unwrap_or(true) {
                     return "oob".into();
                 }
                 let r = if w[0] == "isetlen" { it.set_len(n) } else { it.advance_to(n) };
@@ -805,12 +822,11 @@ impl VMachine {
                 self.iline(ex, line)
             }
             ["inext"] => {
-                let VSt::Iter(mut it, idx, bsum, earlier) = std::mem::replace(&mut self.st, VSt::Dead) else { unreachable!() };
-                let cur_cap = it.uninit().map(|x| x.1).unwrap_or(0);
+                let VSt::Iter(it, idx, bsum, first) = std::mem::replace(&mut self.st, VSt::Dead) else { unreachable!() };
                 match it.next() {
                     Ok(it) => {
                         ex.tag("inext");
-                        self.st = VSt::Iter(it, idx + 1, bsum, earlier + cur_cap);
+                        self.st = VSt::Iter(it, idx + 1, bsum, first);
                         self.iline(ex, line)
                     }
                     Err(v) => {
